@@ -1591,6 +1591,7 @@ type memCase struct {
 	rc      raftCfg
 	head    string // "A=… R=… raft=… P=…"
 	health  map[uint64]int
+	spec    map[uint64]bool // healthy by the specification, for the members GetClusterProgress reports on
 	n       int
 	wal     *chain.ChainDB // what the request / raft-log paths write conf-change progress to
 }
@@ -1621,7 +1622,15 @@ func (c *memCase) setRaft(rc raftCfg) string {
 	c.cl.VerifSetRaft(rc.hasNode, rc.statusID, rc.leader, rc.last, rc.prog)
 	var pt []string
 	for _, p := range rc.prog {
-		pt = append(pt, fmt.Sprintf("%d:%d:%d", p.ID, p.State, p.Match))
+		next := p.Next
+		if next == 0 {
+			next = p.Match + 1
+		}
+		act := 0
+		if p.Active {
+			act = 1
+		}
+		pt = append(pt, fmt.Sprintf("%d:%d:%d:%d:%d", p.ID, p.State, p.Match, next, act))
 	}
 	b := func(x bool) int {
 		if x {
@@ -1633,7 +1642,46 @@ func (c *memCase) setRaft(rc raftCfg) string {
 		c.cl.VerifAttachServer(c.wal)
 	}
 	c.n, c.health, _ = c.cl.VerifMemberHealth()
+	c.healthOracle()
 	return fmt.Sprintf("raft=%d,%d,%d,%d,%d,%d P=%s", b(rc.hasNode), rc.statusID, b(rc.leader), rc.self, rc.last, raftv2.VerifSlowGap(), strings.Join(pt, ";"))
+}
+
+// healthOracle: the health classification that feeds the availability check, against its specification: a
+// member is healthy iff it is this (leader) node itself, or raft replicates to it (not probing, not sending a
+// snapshot) and what it has acknowledged (Match) is at most MaxSlowNodeGap behind the leader's last index.
+// Nothing else of the progress row (Next, the optimistic send position; RecentActive) counts.
+func (c *memCase) healthOracle() {
+	c.spec = nil
+	if c.health == nil {
+		return
+	}
+	c.spec = map[uint64]bool{}
+	gap := raftv2.VerifSlowGap()
+	for _, p := range c.rc.prog {
+		st, ok := c.health[p.ID]
+		if !ok {
+			continue
+		}
+		behind := uint64(0)
+		if c.rc.last > p.Match {
+			behind = c.rc.last - p.Match
+		}
+		want := p.ID == c.rc.self || (p.State == 1 && behind <= gap)
+		c.spec[p.ID] = want
+		c.run.Count(fmt.Sprintf("health-spec:state=%d healthy=%v", p.State, want))
+		if p.State == 1 && !p.Active && st == 0 && p.ID != c.rc.self {
+			c.run.Count("health-spec:observation(replicate row with RecentActive=false counts as healthy)")
+		}
+		if (st == 0) != want {
+			next := p.Next
+			if next == 0 {
+				next = p.Match + 1
+			}
+			c.run.Fail(fmt.Sprintf("member %d is classified %s by GetClusterProgress: raft state %d, acknowledged index %d (next %d), leader's last index %d, allowed gap %d — the availability check counts healthy members from this",
+				p.ID, map[bool]string{true: "healthy", false: "not healthy"}[st == 0], p.State, p.Match, next, c.rc.last, gap),
+				map[string]interface{}{"cluster": c.head, "self": c.rc.self, "last": c.rc.last, "progress": fmt.Sprint(c.rc.prog)})
+		}
+	}
 }
 
 // one request against the current cluster and raft status
@@ -1708,10 +1756,11 @@ func (c *memCase) refusalOracle(line, out, verb string, ccType int, m *mem, acce
 		if inRemoved && accepted {
 			bad(fmt.Sprintf("it removes the already removed member %d", m.id))
 		}
-		if st, ok := c.health[m.id]; withHealth && ok && st == 0 && accepted {
+		// healthy by the specification (acknowledged index within the allowed gap), not by the classification under test
+		if ok := c.spec[m.id]; withHealth && ok && accepted {
 			h := 0
-			for _, v := range c.health {
-				if v == 0 {
+			for _, v := range c.spec {
+				if v {
 					h++
 				}
 			}
@@ -1973,7 +2022,7 @@ func membership(run *vh.Run) {
 	healthyRaft := func(n int) raftCfg {
 		rc := raftCfg{hasNode: true, statusID: 1, leader: true, self: 1, last: 500}
 		for i := 0; i < n; i++ {
-			rc.prog = append(rc.prog, raftv2.VerifProgress{ID: uint64(i + 1), State: 1, Match: 500})
+			rc.prog = append(rc.prog, raftv2.VerifProgress{ID: uint64(i + 1), State: 1, Match: 500, Active: true})
 		}
 		return rc
 	}
@@ -2048,13 +2097,21 @@ func membership(run *vh.Run) {
 	// (b) availability: every health vector (raw progress state x replication gap per follower) of 1..5 nodes
 	gap := raftv2.VerifSlowGap()
 	last := uint64(1000)
-	raws := []raftv2.VerifProgress{{State: 1, Match: last}, {State: 1, Match: last - gap}, {State: 1, Match: last - gap - 1},
-		{State: 0, Match: last}, {State: 2, Match: last}, {State: 2, Match: 0}}
+	raws := []raftv2.VerifProgress{{State: 1, Match: last, Active: true}, {State: 1, Match: last - gap, Active: true}, {State: 1, Match: last - gap - 1, Active: true},
+		{State: 0, Match: last, Active: true}, {State: 2, Match: last, Active: true}, {State: 2, Match: 0},
+		// raft streams to a follower that lags: Next (the optimistic send position) is at the end of the log, Match far behind
+		{State: 1, Match: last - gap - 1, Next: last + 1, Active: true}, {State: 1, Match: last - 4*gap, Next: last - gap/2, Active: true},
+		{State: 1, Match: last - gap, Next: last + 1}}
+	allRaws := raws
 	for n := 1; n <= 5; n++ {
 		c := &memCase{run: run, applied: pool[:n], removed: pool[5:6], wal: wal}
 		c.rc.self = 1
 		if !c.build() {
 			panic("cluster build failed")
+		}
+		raws := allRaws
+		if n == 5 && !run.Thorough() {
+			raws = []raftv2.VerifProgress{allRaws[0], allRaws[2], allRaws[3], allRaws[6], allRaws[8]} // 5^4 vectors; thorough: all 9^4
 		}
 		total := 1
 		for i := 1; i < n; i++ {
@@ -2062,7 +2119,7 @@ func membership(run *vh.Run) {
 		}
 		for v := 0; v < total; v++ {
 			rc := raftCfg{hasNode: true, statusID: 1, leader: true, self: 1, last: last}
-			rc.prog = append(rc.prog, raftv2.VerifProgress{ID: 1, State: 0, Match: 0}) // self: always healthy, whatever its own row says
+			rc.prog = append(rc.prog, raftv2.VerifProgress{ID: 1, State: 0, Match: 0, Active: true}) // self: always healthy, whatever its own row says
 			x := v
 			for i := 1; i < n; i++ {
 				p := raws[x%len(raws)]
@@ -2119,6 +2176,39 @@ func membership(run *vh.Run) {
 			c.request(rt, 2, fresh)
 			c.prod(rt, "cm", 0, fresh, false)
 			c.prod(rt, "mk", 0, fresh, false)
+		}
+	}
+
+	// (e) the health classification itself: one follower row swept over raft state x acknowledged index around the
+	// MaxSlowNodeGap boundary x send position x activity, as leader and as non-leader, in a 3-node cluster whose third
+	// node is healthy: removing the healthy third node must be refused exactly when the swept one is not healthy
+	{
+		c := &memCase{run: run, applied: pool[:3], removed: pool[5:6], wal: wal}
+		c.rc.self = 1
+		if !c.build() {
+			panic("cluster build failed")
+		}
+		matches := []uint64{last, last - gap + 1, last - gap, last - gap - 1, last - 4*gap, 0, last + 5}
+		for st := 0; st <= 2; st++ {
+			for _, m := range matches {
+				for _, nx := range []uint64{m + 1, last + 1, last - gap, 1} {
+					for _, act := range []bool{true, false} {
+						for _, leader := range []bool{true, false} {
+							rc := raftCfg{hasNode: true, statusID: 1, leader: leader, self: 1, last: last}
+							rc.prog = []raftv2.VerifProgress{{ID: 1, State: 0, Match: 0, Active: true}, {ID: 2, State: st, Match: m, Next: nx, Active: act},
+								{ID: 3, State: 1, Match: last, Active: true}}
+							rt := c.setRaft(rc)
+							run.Count("health:classification-sweep")
+							for _, id := range []uint64{2, 3} {
+								c.request(rt, 1, &mem{id: id})
+								c.prod(rt, "cm", 1, &mem{id: id}, false)
+							}
+							c.request(rt, 0, fresh)
+							c.prod(rt, "mk", 0, fresh, false)
+						}
+					}
+				}
+			}
 		}
 	}
 
@@ -2184,7 +2274,11 @@ func membership(run *vh.Run) {
 			if rng.Chance(1, 12) {
 				continue
 			}
-			rc.prog = append(rc.prog, raftv2.VerifProgress{ID: a.id, State: rng.Intn(3), Match: uint64(rng.Intn(400))})
+			pr := raftv2.VerifProgress{ID: a.id, State: rng.Intn(3), Match: uint64(rng.Intn(400)), Active: !rng.Chance(1, 5)}
+			if rng.Chance(1, 2) {
+				pr.Next = pr.Match + 1 + uint64(rng.Intn(400))
+			}
+			rc.prog = append(rc.prog, pr)
 		}
 		rt := c.setRaft(rc)
 		for k := 0; k < 6; k++ {
